@@ -184,7 +184,16 @@ func run(s Script, v *vt.V) {
 					}
 				}
 			}
-			if nreg > 2 || ntok > 8 { // two acquisitions (before the request, after the challenge) x (wide, narrow) x (POST, GET fallback)
+			maxTok := 8
+			selfRedirect := false
+			for _, hx := range hosts {
+				// (which host's token-server behaviour applies is decided by the service the client names)
+				selfRedirect = selfRedirect || strings.HasPrefix(hx.TokenFault, "redirect:") && strings.HasSuffix(hx.TokenFault, ":REALM")
+			}
+			if selfRedirect {
+				maxTok = 8 * 11 // a realm that redirects to itself: each token request is followed a bounded number of times (net/http's own limit is 10)
+			}
+			if nreg > 2 || ntok > maxTok { // two acquisitions (before the request, after the challenge) x (wide, narrow) x (POST, GET fallback)
 				v.Failf("unbounded", "%s: one call made %d registry requests and %d token requests", desc, nreg, ntok)
 				return
 			}
@@ -344,7 +353,7 @@ func genScript(t *rapid.T) Script {
 		h.Refuse = rapid.IntRange(0, 3).Draw(t, "refuse") == 0
 		if rapid.IntRange(0, 2).Draw(t, "tokenFault") == 0 {
 			h.TokenFault = rapid.SampledFrom([]string{"status:300", "status:301", "status:400", "status:401", "status:403", "status:404", "status:418", "status:500", "status:503", "status:599", "badjson", "emptyjson", "notoken", "accessfield",
-				"redirect:307:evil.test", "redirect:308:evil.test", "redirect:302:evil.test", "redirect:307:REALM:8443", "redirect:301:REALM:8443", "redirect:307:plain-REALM", "redirect:308:plain-REALM"}).Draw(t, "fault")
+				"redirect:307:evil.test", "redirect:308:evil.test", "redirect:302:evil.test", "redirect:307:REALM:8443", "redirect:301:REALM:8443", "redirect:307:plain-REALM", "redirect:308:plain-REALM", "redirect:307:REALM", "redirect:302:REALM"}).Draw(t, "fault")
 		}
 		if rapid.IntRange(0, 3).Draw(t, "neverAccept") == 0 {
 			h.Accept = "never"
@@ -372,7 +381,7 @@ func genScript(t *rapid.T) Script {
 var prop = &vt.Prop[Script]{
 	ID:   "C11",
 	Name: "CredentialConfinement",
-	Rule: "2-3 registry hosts (two of them differing only in port; sometimes a third named sreg1.test, whose http:// URL and reg1.test's https:// URL differ only around the '://') with distinct unique secrets and credential kinds {none, basic, refresh, refresh+basic, static token, failing config lookup}; token realms on separate hosts or on another registry's host; challenges {Bearer exact / no scope / unrelated scope, Basic, both, raw headers of every RFC 7235 shape: case variants, token and quoted values with escapes, missing '=', unterminated quotes, empty, 8-bit, unknown schemes (Negotiate, NTLM, Digest, Custom), several challenges in one line, realm naming another registry, malformed realm URL, very long scope}; token servers that fail with statuses 300-599 or redirect (301/302/307/308) to a host nobody named or to another port of the realm's host or to the same host over plaintext http, return malformed / empty JSON, omit the token, lack the POST endpoint, refuse over-wide scopes; registries that answer 401 to every token, with the usual challenge or - when a token was presented - with no, an unsupported or an unparsable Www-Authenticate header or with a Basic-only challenge; 1-8 requests (some to the plaintext http endpoint of a host name, which is a registry of its own as far as challenges go; some with a Host header naming another of the hosts) with no body, a plain body and a rewindable body; in a synctest bubble over the in-memory world; oracle: every secret is searched (also base64- and URL-decoded) in every outgoing request: a password only to a realm host its own registry named, or as Basic to its own registry after that registry issued a Basic challenge; a refresh token only to such realms; access tokens only to their own registry; at most 2 registry requests (and 8 token requests) per call; a 401 answered to a token minted in this call (on the retry, or on a first attempt made with a token acquired up front) reaches the caller as 403 DENIED (a JSON error document declared as application/json, whatever content type the registry's 401 had); the caller's request (method, URL, headers, ContentLength, Body, GetBody) is unchanged; every body (incl. those from GetBody) is closed on every path; a failing config lookup sends nothing; no panic; non-trivial = a challenge was seen and a credential was sent; distinct = the script",
+	Rule: "2-3 registry hosts (two of them differing only in port; sometimes a third named sreg1.test, whose http:// URL and reg1.test's https:// URL differ only around the '://') with distinct unique secrets and credential kinds {none, basic, refresh, refresh+basic, static token, failing config lookup}; token realms on separate hosts or on another registry's host; challenges {Bearer exact / no scope / unrelated scope, Basic, both, raw headers of every RFC 7235 shape: case variants, token and quoted values with escapes, missing '=', unterminated quotes, empty, 8-bit, unknown schemes (Negotiate, NTLM, Digest, Custom), several challenges in one line, realm naming another registry, malformed realm URL, very long scope}; token servers that fail with statuses 300-599 or redirect (301/302/307/308) to a host nobody named or to another port of the realm's host or to the same host over plaintext http or to themselves (a redirect loop, followed a bounded number of times), return malformed / empty JSON, omit the token, lack the POST endpoint, refuse over-wide scopes; registries that answer 401 to every token, with the usual challenge or - when a token was presented - with no, an unsupported or an unparsable Www-Authenticate header or with a Basic-only challenge; 1-8 requests (some to the plaintext http endpoint of a host name, which is a registry of its own as far as challenges go; some with a Host header naming another of the hosts) with no body, a plain body and a rewindable body; in a synctest bubble over the in-memory world; oracle: every secret is searched (also base64- and URL-decoded) in every outgoing request: a password only to a realm host its own registry named, or as Basic to its own registry after that registry issued a Basic challenge; a refresh token only to such realms; access tokens only to their own registry; at most 2 registry requests (and 8 token requests) per call; a 401 answered to a token minted in this call (on the retry, or on a first attempt made with a token acquired up front) reaches the caller as 403 DENIED (a JSON error document declared as application/json, whatever content type the registry's 401 had); the caller's request (method, URL, headers, ContentLength, Body, GetBody) is unchanged; every body (incl. those from GetBody) is closed on every path; a failing config lookup sends nothing; no panic; non-trivial = a challenge was seen and a credential was sent; distinct = the script",
 	Gen:  genScript,
 	Run:  run,
 }
